@@ -44,7 +44,9 @@ type World struct {
 	rtErr     types.Type
 	rtErrOnce sync.Once
 
-	ifShapes map[*ssa.BasicBlock]*ifShape
+	ifShapes  map[*ssa.BasicBlock]*ifShape
+	embeds    map[*ssa.Package]map[string]string
+	pkgByPath map[string]*packages.Package
 
 	pureMu    sync.Mutex
 	pureCache map[*ssa.Function]bool
